@@ -195,7 +195,8 @@ class NullKernel(ProbeKernel):
 
 def probe_book(k):
     """Every booked probe kernel class documents its own messages (the same codes mean different things per kernel)."""
-    return {0: "no errors", 1: f"probe {k} error one", 2: f"probe {k} error two", -1: f"probe {k} skipped"}
+    return {0: "no errors", 1: f"probe {k} error one", 2: f"probe {k} error two", -1: f"probe {k} skipped",
+            200: f"probe {k} error two hundred"}
 
 
 class ProbeKernelB1(ProbeKernel):
